@@ -94,35 +94,35 @@ class NMAP(Application, discriminator="nmap"):
 
     def _init_request_manager(self) -> RequestManager:
         def _ping_scan_action(request: List[Any], context: Any) -> RequestResponse:
+            if not self._can_perform_network_action():
+                return RequestResponse.from_bool(False)
             results = self.ping_scan(
                 target_ip_address=request[0]["target_ip_address"], show=request[0]["show"], json_serializable=True
             )
-            if not self._can_perform_network_action():
-                return RequestResponse.from_bool(False)
             return RequestResponse(
                 status="success",
                 data={"live_hosts": results},
             )
 
         def _port_scan_action(request: List[Any], context: Any) -> RequestResponse:
-            results = self.port_scan(**request[0], json_serializable=True)
             if not self._can_perform_network_action():
                 return RequestResponse.from_bool(False)
+            results = self.port_scan(**request[0], json_serializable=True)
             return RequestResponse(
                 status="success",
                 data=results,
             )
 
         def _network_service_recon_action(request: List[Any], context: Any) -> RequestResponse:
-            results = self.network_service_recon(**request[0], json_serializable=True)
             if not self._can_perform_network_action():
                 return RequestResponse.from_bool(False)
+            results = self.network_service_recon(**request[0], json_serializable=True)
             return RequestResponse(
                 status="success",
                 data=results,
             )
 
-        rm = RequestManager()
+        rm = super()._init_request_manager()
 
         rm.add_request(
             name="ping_scan",
